@@ -1,4 +1,5 @@
 """C17: compact targets and the proof-of-work check."""
+import chainhist
 import vlib
 from vlib import Recorder, Report, call, exc_info, nat, le
 
@@ -92,7 +93,8 @@ def run(tier):
     recs = drive(tier)
     mm = vlib.validate("Trace_Compact", recs)
     rep.apply_mismatches(recs, mm)
-    rep.cov["evaluations"] = len(recs)
+    nchain = chainhist.run_for(rep, "C17", tier)
+    rep.cov["evaluations"] = nchain + len(recs)
     rep.cov["traces_validated_against_impl"] = len(recs)
     rep.cov["samples"] = [recs[7], recs[len(recs) // 2], recs[-1]]
     nontriv = len({(x["op"], str(x["in"])) for x in recs if x["out"]["k"] == "ret" and x["out"].get("v") not in ([], )})
